@@ -72,7 +72,7 @@ TReturned == /\ l <= N /\ Ev.ev = "returned" /\ Consume /\ UNCHANGED vars
 \* (i = 0): in the design `Arrive` is disabled once the loop has been left -- the listener is dropped before the wait, not after it
 TPort == /\ l <= N /\ Ev.ev = "port" /\ Consume /\ UNCHANGED vars /\ mon' = [mon EXCEPT !.open = (Ev.i = 0)]
 \* informational events
-TInfo == /\ l <= N /\ Ev.ev \in {"release", "grace-over", "unserved"} /\ Consume /\ UNCHANGED <<vars, mon>>
+TInfo == /\ l <= N /\ Ev.ev \in {"release", "grace-over", "unserved", "port-probes-accepted"} /\ Consume /\ UNCHANGED <<vars, mon>>
 
 \* ------------------------------------------------------------------ verdict
 Sig(e) == IF mon.mode = "proto"
